@@ -125,6 +125,15 @@ def run(ctx):
     finally:
         chk.prefix = ""
 
+    # ---- ... and a load/store reaches the documented storage: RAM cell, output register, input register (the rule of
+    # C10, shared; the oracle models the bus as that address map) --------------------------------------------------------
+    from . import C10
+    chk.prefix = "bus/"
+    try:
+        C10.run(ctx)
+    finally:
+        chk.prefix = ""
+
     def check_form(first, second):
         nonlocal nforms, npaths
         key = "%#04x" % first + ("/%#04x" % second if second is not None else "")
